@@ -190,4 +190,30 @@ Module Examples.
   Example c18_identity_instance :
     converged (audit 10 (prog "i32") (prog "i32")) = true /\ audit_fails 10 (prog "i32") (prog "i32") = false.
   Proof. split; vm_compute; reflexivity. Qed.
+
+  (** why [WfNames] is a hypothesis of the passing theorems: the parser accepts two structs with
+      the same name, and such a program fails the audit against itself
+      (struct S { 1: i32 a }  struct S { 1: i64 a }; replayed on the real `frugal -audit x x`: exit 1) *)
+  Definition dup_prog : program :=
+    mkProgram [mkFile (b "dup") [] []] [] [] [] []
+              [mkStruct (b "S") [mkField 1 (b "a") Default (base "i32") []];
+               mkStruct (b "S") [mkField 1 (b "a") Default (base "i64") []]] [] [] [].
+  Example c18_identity_needs_distinct_names :
+    converged (audit 10 dup_prog dup_prog) = true /\ audit_fails 10 dup_prog dup_prog = true.
+  Proof. split; vm_compute; reflexivity. Qed.
+
+  (** a limit of the documented catalogue itself (types are compared by name): an enum replaced by
+      a struct of the same name is "enum removed" (a warning) and the field that uses it keeps its
+      type name, so the audit passes although the field's wire type changes
+      (enum Foo { A }  struct S { 1: Foo f }   ->   struct Foo {}  struct S { 1: Foo f };
+       replayed on the real `frugal -audit`: one WARNING, exit 0) *)
+  Definition kind_old : program :=
+    mkProgram [mkFile (b "k") [] []] [] [] [] [mkEnum (b "Foo") [mkEnumV (b "A") 0]]
+              [mkStruct (b "S") [mkField 1 (b "f") Default (base "Foo") []]] [] [] [].
+  Definition kind_new : program :=
+    mkProgram [mkFile (b "k") [] []] [] [] [] []
+              [mkStruct (b "Foo") []; mkStruct (b "S") [mkField 1 (b "f") Default (base "Foo") []]] [] [] [].
+  Example c18_kind_change_outside_catalogue :
+    converged (audit 10 kind_old kind_new) = true /\ audit_fails 10 kind_old kind_new = false.
+  Proof. split; vm_compute; reflexivity. Qed.
 End Examples.
